@@ -10,7 +10,9 @@ spec = {"file": path, "mode": "w"|"a"|"r", "seed": int, "phases": [n_ops, ...], 
                  these bounds - the harness's probe of what libhdf5 does with them, never used on the checked path),
         "big": bool, "kill": true|false, "compression": "No"|"DeflateNormal"|"Auto"|null (File-level argument;
         null = argument omitted)}
-END  = "flush" | "close" | "exit" | "exit_exc" | "none" | "flush_flush"
+END  = "flush" | "close" | "exit" | "exit_exc" | "none" | "flush_flush" | "late" (flush(), then "late_ops" more
+       operations of profile "late_profile", their walk recorded as "late_walk", and the kill WITHOUT a further
+       flush: informational only - the property promises nothing about writes after the last flush)
 out  = {"flush_points": [flatten(walk) per flush point], "final_walk": full walk at the last flush point,
         "ops": [executed op log], "mode": ..., "end": ..., "pre_walk_equal_post": bool|None}
 
@@ -711,8 +713,11 @@ def run(spec):
             return fapl
         _nf.make_fapl = _probe_fapl
 
+    holder = {}
+
     def body(f):
         g = Gen(nix, f, rng, bool(spec.get("big", True)))
+        holder["g"] = g
         for i, n in enumerate(phases):
             g.profile = profiles[i] if i < len(profiles) and profiles[i] else "mixed"
             if g.profile != "mixed" and g.profile not in Gen.PROFILES:
@@ -788,6 +793,15 @@ def run(spec):
                 f.close()
             elif end == "none":
                 pass
+            elif end == "late":
+                f.flush()
+                g = holder["g"]
+                g.profile = spec.get("late_profile") or "mixed"
+                n0 = len(g.log)
+                for _ in range(int(spec.get("late_ops", 4))):
+                    g.step()
+                out["late_log"] = g.log[n0:]
+                out["late_walk"] = _walks(f)[1]
             else:
                 raise SystemExit("unknown end %r" % end)
         except Exception as e:       # a flush()/close() that raises: recorded, the kill still happens
